@@ -25,7 +25,19 @@ def cfgs():
     add("D12-frag300-cauth", srv_rsa, cli_rsa_id, "ver=D12 cb=strict", "ver=D12 suites=0x3c", pmtu=300)
     return C
 
-def episode_lines(cfg, sched, replays):
+def storm_lines(x, k, tail=4):
+    """application records from x after the handshake: the first is delivered, the next k are lost, the one after
+    them is delivered - a jump of k+1 in the sequence numbers - then it and the first are replayed, the rest arrives,
+    and the jumped-to record and the last one are replayed again"""
+    n = k + 2 + tail
+    L = ["send %s %d" % (x, 3 + i % 5) for i in range(n)] + ["flush %s" % x, "deliver %s 1" % x]
+    L += ["drop %s 0" % x] * k + ["deliver %s 1" % x]
+    L += ["replay %s 0 %d" % (x, -n + k + 1), "deliver %s 1" % x, "replay %s 0 %d" % (x, -n), "deliver %s 1" % x]
+    L += ["deliver %s 1" % x] * tail
+    L += ["replay %s 0 %d" % (x, -n + k + 1), "deliver %s 1" % x, "replay %s 0 -1" % x, "deliver %s 1" % x, "replay %s 0 %d" % (x, -n + k + 2), "deliver %s 1" % x]
+    return L
+
+def episode_lines(cfg, sched, replays, storm=(), early=None):
     L = [cfg["ks"], cfg["kc"]]
     if cfg["pmtu"]:
         L.append("pmtu %d" % cfg["pmtu"])
@@ -35,10 +47,34 @@ def episode_lines(cfg, sched, replays):
     L += ["new s0 server keys=ks %s" % cfg["so"], "new c0 client keys=kc %s" % cfg["co"], "link c0 s0"]
     L.append("sched c0 s0 %s" % sched)
     L.append("heal c0 s0 rounds=8")
-    L += ["mark healed", "state c0", "state s0", "send c0 9", "send s0 7", "pump c0 s0 max=30", "send c0 3", "send s0 2", "pump c0 s0 max=30", "mark replays"]
+    L += ["mark healed", "state c0", "state s0"]
+    if early:
+        # one side talks first; its retransmission timer fires before it has heard anything back (the sender of the last
+        # flight cannot know it arrived), the repeated flight is delivered, and what was sent before it is replayed
+        x, y = early
+        L += ["send %s 7" % x, "send %s 3" % x, "pump c0 s0 max=20", "timeout %s" % x, "pump c0 s0 max=20"]
+        for h in range(-8, 0):
+            L += ["replay %s 0 %d" % (x, h), "deliver %s 1" % x]
+        L += ["timeout %s" % y, "pump c0 s0 max=20", "timeout %s" % x, "pump c0 s0 max=20"]
+        for h in range(-10, 0):
+            L += ["replay %s 0 %d" % (x, h), "deliver %s 1" % x]
+    L += ["send c0 9", "send s0 7", "pump c0 s0 max=30", "send c0 3", "send s0 2", "pump c0 s0 max=30", "mark replays"]
     for (ep, h) in replays:
         L += ["replay %s 0 %d" % (ep, h), "deliver %s 1" % ep]
     L += ["pump c0 s0 max=60", "send c0 5", "send s0 4", "pump c0 s0 max=30", "mark final", "state c0", "state s0"]
+    if storm:
+        L.append("mark storm")
+        for item in storm:
+            if item[0] == "timers":
+                # the application's retransmission timer fires although the handshake is complete: the last flight is
+                # sent again; then everything captured so far is replayed
+                L += ["timeout s0", "pump c0 s0 max=20", "timeout c0", "pump c0 s0 max=20"]
+                for ep in ("s0", "c0"):
+                    for h in item[1]:
+                        L += ["replay %s 0 %d" % (ep, h), "deliver %s 1" % ep]
+            else:
+                L += storm_lines(item[0], item[1])
+        L += ["send c0 6", "send s0 5", "pump c0 s0 max=30", "mark stormend", "state c0", "state s0"]
     return L
 
 LETTERS = "dddddddddxxxuusl"
@@ -47,8 +83,8 @@ def episodes(tier, seed):
     rnd = random.Random(seed * 104729 + 3)
     C = cfgs()
     eps = []
-    def add(cfg, sched, replays, kind):
-        eps.append(dict(id="D%d" % len(eps), cfg=cfg["name"], sched=sched, replays=replays, kind=kind, lines=episode_lines(cfg, sched, replays)))
+    def add(cfg, sched, replays, kind, storm=(), early=None):
+        eps.append(dict(id="D%d" % len(eps), cfg=cfg["name"], sched=sched, replays=replays, kind=kind, lines=episode_lines(cfg, sched, replays, storm, early)))
     all_replays_fwd = [("c0", h) for h in range(0, 14)] + [("s0", h) for h in range(0, 14)]
     all_replays_back = [("c0", -h) for h in range(1, 12)] + [("s0", -h) for h in range(1, 12)]
     fin_then_app = [("c0", h) for h in (3, 4, 5, 6, 7, 8)] * 2 + [("s0", h) for h in (4, 5, 6, 7, 8, 9, 10)] * 2
@@ -69,6 +105,21 @@ def episodes(tier, seed):
             s = "".join(rnd.choice(LETTERS) for _ in range(n))
             rp = rnd.choice([all_replays_fwd, all_replays_back, fin_then_app, [(rnd.choice(["c0", "s0"]), rnd.randrange(-12, 14)) for _ in range(10)]])
             add(cfg, s, rp, "random")
+    # after the handshake: jumps in the record sequence numbers around the width of the replay window, timers that
+    # fire on complete endpoints, and replays across them
+    jumps = (0, 1, 30, 31, 32, 33, 62, 63, 64, 65, 70) if tier == "quick" else tuple(range(0, 72)) + (100, 127, 128, 129, 200)
+    for cfg in C:
+        if tier == "quick" and cfg["name"] not in ("D12-ecdhe-rsa-gcm", "D12-rsa-cbc", "D10-rsa-cbc", "D12-psk"): continue
+        for k in jumps:
+            add(cfg, "", [], "storm-jump", storm=[("c0", k), ("s0", k)])
+            if tier != "quick" or k in (1, 32, 64):
+                add(cfg, "", [], "storm-timers-jump", storm=[("timers", list(range(-8, 0))), ("s0", k), ("timers", list(range(-10, 0))), ("c0", k)])
+        add(cfg, "", [], "storm-timers", storm=[("timers", list(range(-10, 0)) + list(range(0, 14)))])
+        add(cfg, rnd.choice(["dxd", "ddxdd", "dddddx"]), [], "storm-timers-lossy", storm=[("timers", list(range(-12, 0)))])
+    for cfg in C:
+        for early in (("s0", "c0"), ("c0", "s0")):
+            add(cfg, "", [], "early-timer", early=early)
+            add(cfg, rnd.choice(["dddx", "ddddddx", "dxdd"]), all_replays_back, "early-timer-lossy", early=early)
     # loss of whole flights
     for cfg in C:
         for s in ("x", "dx", "dxx", "ddx", "ddxxxxx", "dddx", "dddxx", "dddddx", "ddddddx", "dddddddxx", "ddddddddx", "dddddddddxx", "xdxdxdxdxdxdxdxd"):
